@@ -1,6 +1,7 @@
 package main
 
 import (
+	"context"
 	"fmt"
 	"io"
 	"os"
@@ -46,7 +47,8 @@ type vDef struct {
 
 type vTask struct {
 	Name   string   `json:"name"`
-	Sub    bool     `json:"sub"` // defined in the included Taskfile
+	Sub    bool     `json:"sub"`  // defined in the included Taskfile
+	Leaf   bool     `json:"leaf"` // defined in the Taskfile included by the included Taskfile (depth 2)
 	Dir    string   `json:"dir"`
 	Vars   []vDef   `json:"vars"`
 	Env    []vDef   `json:"env"` // literal only
@@ -66,6 +68,13 @@ type varsCase struct {
 	Include  bool                `json:"include"`
 	IncVars  []vDef              `json:"inc_vars"`
 	SubVars  []vDef              `json:"sub_vars"`
+	// Indep: the include-statement layers are literals and the model is given what the GENERATOR wrote
+	// (inner include vars, then outer include vars; included file's vars, then the nested file's), not
+	// what Task loaded — so a merge that drops or replaces a layer is noticed.  Deep adds a second level.
+	Indep       bool   `json:"indep"`
+	Deep        bool   `json:"deep"`
+	DeepIncVars []vDef `json:"deep_inc_vars"`
+	LeafVars    []vDef `json:"leaf_vars"`
 	Tasks    []vTask             `json:"tasks"`
 	Seq      []vCall             `json:"seq"`
 	Dotenvs  map[string][][2]string `json:"dotenvs"`
@@ -99,6 +108,8 @@ func renderDefs(b *strings.Builder, indent string, key string, defs []vDef) {
 	}
 }
 
+var leafOut string
+
 func renderVarsFiles(d varsCase) (root, sub string) {
 	var b, s strings.Builder
 	b.WriteString("version: '3'\nsilent: true\n")
@@ -110,12 +121,25 @@ func renderVarsFiles(d varsCase) (root, sub string) {
 	}
 	s.WriteString("version: '3'\nsilent: true\n")
 	renderDefs(&s, "", "vars", d.SubVars)
+	var l strings.Builder
+	l.WriteString("version: '3'\nsilent: true\n")
+	renderDefs(&l, "", "vars", d.LeafVars)
+	if d.Deep {
+		s.WriteString("includes:\n  deep:\n    taskfile: ./deep/Taskfile.yml\n    dir: ./deep\n")
+		renderDefs(&s, "    ", "vars", d.DeepIncVars)
+	}
 	b.WriteString("tasks:\n")
 	s.WriteString("tasks:\n")
+	l.WriteString("tasks:\n")
+	leafOut = ""
+	defer func() { leafOut = l.String() }()
 	for _, t := range d.Tasks {
 		w := &b
 		if t.Sub {
 			w = &s
+		}
+		if t.Leaf {
+			w = &l
 		}
 		fmt.Fprintf(w, "  %s:\n", t.Name)
 		if t.Dir != "" {
@@ -135,7 +159,12 @@ func renderVarsFiles(d varsCase) (root, sub string) {
 			}
 			fmt.Fprintf(w, "        cmd: %s\n", varsYamlQ("echo "+strings.Join(it, ",")))
 		} else {
-			fmt.Fprintf(w, "    cmds: ['true']\n")
+			// every variable of the pool, as the command and as a deferred command see it
+			var refs []string
+			for _, n := range vPool[:vGen] {
+				refs = append(refs, "{{."+n+"}}")
+			}
+			fmt.Fprintf(w, "    cmds:\n      - %s\n      - defer: %s\n", varsYamlQ("echo 'C:"+t.Name+":"+strings.Join(refs, "|")+"'"), varsYamlQ("echo 'D:"+t.Name+":"+strings.Join(refs, "|")+"'"))
 		}
 	}
 	return b.String(), s.String()
@@ -267,6 +296,10 @@ func evalVarsAll(d varsCase) (lines []varsLine) {
 	if d.Include {
 		os.WriteFile(filepath.Join(dir, "sub", "Taskfile.yml"), []byte(sub), 0o644)
 	}
+	if d.Deep {
+		os.MkdirAll(filepath.Join(dir, "sub", "deep"), 0o755)
+		os.WriteFile(filepath.Join(dir, "sub", "deep", "Taskfile.yml"), []byte(leafOut), 0o644)
+	}
 	for name, kvs := range d.Dotenvs {
 		var b strings.Builder
 		for _, kv := range kvs {
@@ -274,6 +307,8 @@ func evalVarsAll(d varsCase) (lines []varsLine) {
 		}
 		os.WriteFile(filepath.Join(dir, name), []byte(b.String()), 0o644)
 		os.WriteFile(filepath.Join(dir, "sub", name), []byte(b.String()), 0o644)
+		os.MkdirAll(filepath.Join(dir, "sub", "deep"), 0o755)
+		os.WriteFile(filepath.Join(dir, "sub", "deep", name), []byte(b.String()), 0o644)
 	}
 	for _, n := range vPool {
 		os.Unsetenv(n)
@@ -330,11 +365,16 @@ func evalVarsAll(d varsCase) (lines []varsLine) {
 		}
 		return []varsLine{{cl.String(), strings.Join(parts, " ")}}
 	}
+	var runExpect []string
+	var runCalls []*task.Call
 	for _, call := range d.Seq {
 		vt := d.Tasks[call.Task]
 		name := vt.Name
 		if vt.Sub {
 			name = "inc:" + name
+		}
+		if vt.Leaf {
+			name = "inc:deep:" + name
 		}
 		orig, ok := e.Taskfile.Tasks.Get(name)
 		if !ok {
@@ -353,8 +393,24 @@ func evalVarsAll(d varsCase) (lines []varsLine) {
 		inclTF := orig.IncludedTaskfileVars
 		if vt.Sub {
 			inclTF = toAstVars(d.SubVars)
+			if d.Deep {
+				// the included file's variables already contain those of the file IT includes (merged upwards, later wins)
+				inclTF = toAstVars(mergeDefs(d.SubVars, d.LeafVars))
+			}
 		}
-		for i, vs := range []*ast.Vars{e.Compiler.TaskfileEnv, e.Compiler.TaskfileVars, orig.IncludeVars, inclTF, toAstVars(call.Vars), orig.Vars} {
+		if vt.Leaf {
+			// merged twice: the included file's variables (the nested file's merged into them, later wins)
+			inclTF = toAstVars(mergeDefs(d.SubVars, d.LeafVars))
+		}
+		inclStmt := orig.IncludeVars
+		if d.Indep && vt.Sub {
+			inclStmt = toAstVars(d.IncVars)
+		}
+		if d.Indep && vt.Leaf {
+			// inner include statement first, the outer one merged over it
+			inclStmt = toAstVars(mergeDefs(d.DeepIncVars, d.IncVars))
+		}
+		for i, vs := range []*ast.Vars{e.Compiler.TaskfileEnv, e.Compiler.TaskfileVars, inclStmt, inclTF, toAstVars(call.Vars), orig.Vars} {
 			var bok bool
 			blocks[i], bok = absVars(vs)
 			allOK = allOK && bok
@@ -386,6 +442,19 @@ func evalVarsAll(d varsCase) (lines []varsLine) {
 			vals = append(vals, hx(s))
 		}
 		lines = append(lines, varsLine{cl, strings.Join(vals, " ")})
+		{
+			var plain []string
+			for _, n := range vPool[:vGen] {
+				v, _ := t.Vars.Get(n)
+				sv := ""
+				if v.Value != nil {
+					sv = fmt.Sprint(v.Value)
+				}
+				plain = append(plain, sv)
+			}
+			runExpect = append(runExpect, "C:"+vt.Name+":"+strings.Join(plain, "|"), "D:"+vt.Name+":"+strings.Join(plain, "|"))
+			runCalls = append(runCalls, &task.Call{Task: name, Vars: toAstVars(call.Vars)})
+		}
 
 		// command environment: process env / global env / dotenv files / task env (literals only)
 		if len(vt.Env) > 0 || len(vt.Dotenv) > 0 || len(d.RootEnv) > 0 {
@@ -439,7 +508,55 @@ func evalVarsAll(d varsCase) (lines []varsLine) {
 			}
 		}
 	}
+	// execution: the same calls, run in order in a fresh executor, must print what was resolved for
+	// each call — also from the deferred command, and also when the same task is called again
+	// with other variables (no call may observe another call's values)
+	if len(runCalls) > 0 && len(runExpect) == 2*len(runCalls) && !hasEnvSh(d) && os.Getenv("VERIF_VARS_RUN") != "0" {
+		var buf strings.Builder
+		e2 := task.NewExecutor(task.WithDir(dir), task.WithStdout(&buf), task.WithStderr(io.Discard), task.WithSilent(true),
+			task.WithTempDir(task.TempDir{Remote: filepath.Join(dir, ".task"), Fingerprint: filepath.Join(dir, ".task")}))
+		if err := e2.Setup(); err == nil {
+			rerr := e2.Run(context.Background(), runCalls...)
+			var got []string
+			for _, ln := range strings.Split(strings.TrimRight(buf.String(), "\n"), "\n") {
+				got = append(got, hx(ln))
+			}
+			if rerr != nil {
+				got = append(got, hx("error: "+rerr.Error()))
+			}
+			var exp []string
+			for _, ln := range runExpect {
+				exp = append(exp, hx(ln))
+			}
+			lines = append(lines, varsLine{"vars.run " + strings.Join(exp, " "), strings.Join(got, " ")})
+		}
+	}
 	return lines
+}
+
+func hasEnvSh(d varsCase) bool {
+	chk := func(defs []vDef) bool {
+		for _, x := range defs {
+			if x.Kind == "envsh" {
+				return true
+			}
+		}
+		return false
+	}
+	if chk(d.RootVars) || chk(d.IncVars) || chk(d.SubVars) {
+		return true
+	}
+	for _, t := range d.Tasks {
+		if chk(t.Vars) {
+			return true
+		}
+	}
+	for _, c := range d.Seq {
+		if chk(c.Vars) {
+			return true
+		}
+	}
+	return false
 }
 
 func (c *Ctx) vMarker(site string, i int) string { return fmt.Sprintf("%s%d", site, i) }
@@ -501,10 +618,28 @@ func (c *Ctx) genVarsCase(envdep bool) varsCase {
 			}
 		}
 	}
+	if d.Include && !envdep && r.Intn(2) == 0 {
+		d.Indep = true
+		d.IncVars = litDefs(d.IncVars, "I")
+		if r.Intn(2) == 0 {
+			d.Deep = true
+			d.DeepIncVars = litDefs(uniqDefs(c.genDefs("j", 3, false, false)), "J")
+			var lv []vDef
+			for _, x := range uniqDefs(c.genDefs("l", 3, false, false)) {
+				if x.Kind == "lit" {
+					lv = append(lv, x)
+				}
+			}
+			d.LeafVars = lv
+		}
+	}
 	nt := 2 + r.Intn(3)
 	for i := 0; i < nt; i++ {
 		t := vTask{Name: fmt.Sprintf("t%d", i), Sub: d.Include && r.Intn(2) == 0}
-		if !t.Sub {
+		if d.Deep && r.Intn(2) == 0 {
+			t.Sub, t.Leaf = false, true
+		}
+		if !t.Sub && !t.Leaf {
 			switch r.Intn(5) {
 			case 0:
 				t.Dir = "sub"
@@ -549,6 +684,32 @@ func (c *Ctx) genVarsCase(envdep bool) varsCase {
 	return d
 }
 
+// mergeDefs: Vars.Merge — b's entries override a's of the same name (keeping a's position), new names are appended
+func mergeDefs(a, b []vDef) []vDef {
+	out := append([]vDef{}, a...)
+	for _, y := range b {
+		found := false
+		for i := range out {
+			if out[i].Name == y.Name {
+				out[i] = y
+				found = true
+			}
+		}
+		if !found {
+			out = append(out, y)
+		}
+	}
+	return out
+}
+
+func litDefs(defs []vDef, tag string) []vDef {
+	out := []vDef{}
+	for i, x := range defs {
+		out = append(out, vDef{Name: x.Name, Kind: "lit", Text: fmt.Sprintf("%s%d", tag, i)})
+	}
+	return out
+}
+
 func uniqDefs(defs []vDef) []vDef {
 	seen := map[string]bool{}
 	out := []vDef{}
@@ -580,9 +741,13 @@ func definedSites(d varsCase, call vCall, name string) int {
 	has(d.RootEnv)
 	has(d.RootVars)
 	t := d.Tasks[call.Task]
-	if t.Sub {
+	if t.Sub || t.Leaf {
 		has(d.IncVars)
 		has(d.SubVars)
+	}
+	if t.Leaf {
+		has(d.DeepIncVars)
+		has(d.LeafVars)
 	}
 	has(call.Vars)
 	has(t.Vars)
